@@ -99,11 +99,13 @@ class C02(Prop):
         if a["out"] != b["out"]:
             fails.append(dict(what="printed output differs", out_in=a["out"][:300], out_out=b["out"][:300], **ctx))
         for k, v in b["globals"].items():
+            if k == "__doc__" and a["doc"] is None:
+                continue     # "keeps the same module docstring" is claimed for modules that have one
             if k not in a["globals"]:
                 fails.append(dict(what="rewritten program binds a new global", name=k, **ctx))
             elif a["globals"][k] != v:
                 fails.append(dict(what="surviving global bound to a different object", name=k, was=a["globals"][k], now=v, **ctx))
-        if a["doc"] != b["doc"]:
+        if a["doc"] is not None and a["doc"] != b["doc"]:
             fails.append(dict(what="module docstring changed", **ctx))
         return fails[:3]
 
